@@ -59,15 +59,29 @@ def decKb (j : Json) : Except String (List F) := do
     let xi : List F ← nums j "xi"
     return xi.map (kbOf a c)
 
+/-- shelf coefficients: given (`kShelf`), or derived as the code does from `s0`, `sRel`,
+the recorded `normals`, `nz` and the number of vials -/
+def decShelf (j : Json) (n : Nat) : Except String (List F) := do
+  match optFld j "kShelf" with
+  | some _ => nums j "kShelf"
+  | none =>
+    let s0 : F ← num j "s0"
+    let sRel : Option F ← match optFld j "sRel" with
+      | none => pure none
+      | some v => do let x : F ← Wire.dec v; pure (some x)
+    let normals : List F ← nums j "normals"
+    let nz ← nat j "nz"
+    return shelfCoeffs nz n s0 sRel normals
+
 def decParams (j : Json) : Except String (Params F) := do
   let ii ← str j "initIce"
-  let initIce ← match ii with
-    | "indirect" => pure InitIce.indirect
-    | "direct" => pure InitIce.direct
-    | _ => throw "initIce must be direct or indirect"
+  let initIce ← match InitIce.ofString ii with
+    | some x => pure x
+    | none => throw "ValueError: initIce must be direct or indirect"
+  let ext ← ints j "ext"
   return {
-    c := ← decConsts j, nbrs := ← decNatLists j "nbrs", ext := ← ints j "ext",
-    kInt := ← num j "kInt", kExt := ← num j "kExt", kShelf := ← nums j "kShelf",
+    c := ← decConsts j, nbrs := ← decNatLists j "nbrs", ext := ext,
+    kInt := ← num j "kInt", kExt := ← num j "kExt", kShelf := ← decShelf j ext.length,
     A := ← num j "A", kb := ← decKb j, dt := ← num j "dt", threshold := ← num j "threshold",
     initIce := initIce }
 
@@ -132,7 +146,7 @@ def flakeRun : Op := fun j => do
       after.findIdx? fun s => (s.vials[i]?.bind (·.tNuc)).isSome
     let base : List (String × Json) := [
       ("N", encNat r.N), ("kCN", encNat r.kCN), ("tlen", encNat r.t.length),
-      ("kb", encNums p.kb),
+      ("kb", encNums p.kb), ("kShelf", encNums p.kShelf),
       ("tNuc", encOptNums r.tNucleation), ("TNuc", encOptNums r.TNucleation),
       ("tSol", encOptNums r.tSolidification),
       ("nucStep", encOptNats nucStep),
